@@ -183,6 +183,10 @@ fn run_seq(sc: &Scenario, sid: u64) -> SeqOutcome {
     if !sc.ops.iter().any(|o| matches!(o, SOp::Flush { .. })) && sid % 2 == 0 {
         sh.st.lock().unwrap().flush_like_buffered_sink = true;
     }
+    // every fourth history: the wrapped sink's flush fails (the caller of flush() gets the error; nothing else may)
+    if sid % 4 == 1 {
+        sh.st.lock().unwrap().flush_fails = true;
+    }
     set_current(Some(sh.clone()));
     let mut viol: Vec<V> = Vec::new();
     let mut obs: Vec<(&'static str, u64)> = Vec::new();
@@ -394,6 +398,9 @@ fn run_seq(sc: &Scenario, sid: u64) -> SeqOutcome {
                     let before = sh.count(|e| matches!(e, Ev::Enter { .. }));
                     let r = in_call("flush", || ctx(sc), || panics::guard(|| x.flush()));
                     obs.push(("flush_calls_on_queuing_sink", 1));
+                    if let Ok(Err(_)) = &r {
+                        obs.push(("flush_calls_that_returned_the_wrapped_sinks_flush_error", 1));
+                    }
                     match r {
                         Err(p) => {
                             viol.push(V { props: vec!["C10"], rule: "R5", class: "flush-panicked".into(), detail: format!("flush on the queuing sink unwound into the caller: {}", p) });
@@ -751,8 +758,8 @@ impl<'a> Runner<'a> {
                         rule: v.rule.to_string(),
                         class: v.class.clone(),
                         detail: format!("[{} capacity={} handler={} ops={}] {}", mode, sc.capcode(), sc.handler, sc.code(), v.detail),
-                        replay_args: self.args.to_vec_with(&[("mode", "seq-one".into()), ("cap", sc.capcode()), ("ops", sc.code()), ("handler", (sc.handler as u8).to_string())]),
-                        trace: jobj! {"capacity" => sc.capcode(), "handler" => sc.handler, "ops" => sc.code(), "event_log" => log_json(&out.log)},
+                        replay_args: self.args.to_vec_with(&[("mode", "seq-one".into()), ("cap", sc.capcode()), ("ops", sc.code()), ("handler", (sc.handler as u8).to_string()), ("sid", self.sid.to_string())]),
+                        trace: jobj! {"capacity" => sc.capcode(), "handler" => sc.handler, "ops" => sc.code(), "sid" => self.sid, "event_log" => log_json(&out.log)},
                     });
                 } else {
                     rep.obs("other_property_rule_hits", 1);
@@ -1175,6 +1182,10 @@ fn main() {
                     handler: args.str("handler", "1") == "1",
                     ops: args.str("ops", "").split(',').filter(|s| !s.is_empty()).map(SOp::parse).collect(),
                 };
+                // the scenario id selects builder call order and the wrapped sink's flush behaviour: replay the same one
+                if let Some(sid) = args.get("sid").and_then(|s| s.parse::<u64>().ok()) {
+                    runner.sid = sid.wrapping_sub(1);
+                }
                 runner.run(&sc, "seq-one");
             }
             m => {
